@@ -58,9 +58,12 @@ class Trace:
         self.fault_filter = fault_filter or (lambda kind, path, args: True)
         self.fault_seen = 0
         self.fired = None
+        self.paused = False  # set by the harness around its own file operations
         self.thread = threading.get_ident()
 
     def _event(self, kind, path, args):
+        if self.paused:
+            return
         ap = os.path.abspath(path)
         if not any(ap == r or ap.startswith(r + os.sep) for r in self.roots):
             return
